@@ -1098,7 +1098,11 @@ pub fn run(ctx: &Ctx, prop: &str) -> (Vec<Case>, String, bool, BTreeMap<String, 
         extra.extend(crate::c14_blk::run(ctx).0);
         extra.extend(crate::c15_console::run(ctx).0);
         extra.extend(crate::c16_net::run(ctx).0);
-        extra.extend(crate::c17_vsock::run(ctx).0);
+        if ctx.tier == crate::runner::Tier::Thorough {
+            extra.extend(crate::c17_vsock::run(ctx).0);
+        } else {
+            extra.extend(crate::c18_vsockconn::run(ctx).0);
+        }
         extra.extend(crate::c19_events::run_drivers(ctx));
         for c in extra.iter_mut() {
             c.oracle_failures.retain(|f| c04_relevant(f));
